@@ -16,10 +16,11 @@ m = {"version": 1, "setup_cmd": "./setup.sh",
 reasons = {}
 rp = os.path.join(R, "props", "not_claimed.json")
 if os.path.exists(rp): reasons = json.load(open(rp))
+claimed = set(json.load(open(os.path.join(R, "props", "claimed.json"))))   # the coordinator's explicit list
 for pid in allp:
     f = os.path.join(R, "props", pid + ".json")
     cfg = json.load(open(f)) if os.path.exists(f) else None
-    if cfg and cfg.get("claimed", True):
+    if cfg and cfg.get("claimed", True) and pid in claimed:
         m["engines"][0]["serves_properties"].append(pid)
         m["checks"].append({"property_id": pid, "quick_cmd": f"./check {pid} --tier quick", "thorough_cmd": f"./check {pid} --tier thorough",
                             "evidence_file": f"evidence/{pid}.json", "replay_cmd_template": f"./check {pid} --replay {{path}}",
